@@ -1,6 +1,7 @@
 import Wayfind.Model.Basic
 
-/-! L0: optional groups. `parseItems` is the definition of "balanced, non-empty parentheses with escapes honoured";
+/-! L0: optional groups. `parseItems` is the definition of "balanced, non-empty parentheses with escapes honoured"
+(a group is the text between an opening parenthesis and its matching closing one);
 `expansions` keeps or drops every group independently (an inner group only if its enclosing group is kept), kept
 variants first, earlier groups more significant; `topExpansions` replaces only a completely empty result by "/". -/
 
@@ -16,25 +17,83 @@ end
 
 def Items.isNil : Items → Bool | .nil => true | _ => false
 
-/-- recursive descent; `inGroup` = we are inside a parenthesis that must be closed. Returns the items and the rest
-after the closing parenthesis. A backslash escapes the next byte of the *whole* input (also a parenthesis); a
-backslash that is the last byte of the input is a literal. -/
-def parseSeq : Nat → Bytes → Bool → Option (Items × Bytes)
-  | 0, _, _ => none
-  | _ + 1, [], inGroup => if inGroup then none else some (.nil, [])
-  | fuel + 1, 92 :: b :: rest, inGroup =>
-    (parseSeq fuel rest inGroup).map (fun (is, r) => (.cons (.esc b) is, r))
-  | fuel + 1, 40 :: rest, inGroup =>
-    match parseSeq fuel rest true with
-    | none => none
-    | some (inner, rest') =>
-      if inner.isNil then none else
-      (parseSeq fuel rest' inGroup).map (fun (is, r) => (.cons (.grp inner) is, r))
-  | _ + 1, 41 :: rest, inGroup => if inGroup then some (.nil, rest) else none
-  | fuel + 1, b :: rest, inGroup =>
-    (parseSeq fuel rest inGroup).map (fun (is, r) => (.cons (.lit b) is, r))
+/-- the text of a group: from just after an opening parenthesis (at nesting depth `d`, 1 = the group itself) up to
+its matching closing parenthesis, and what follows it. A backslash escapes the next byte, also a parenthesis. -/
+def groupBody : Nat → Bytes → Option (Bytes × Bytes)
+  | _, [] => none
+  | _, [92] => none
+  | d, 92 :: b :: rest => (groupBody d rest).map (fun (g, r) => (92 :: b :: g, r))
+  | d, 40 :: rest => (groupBody (d + 1) rest).map (fun (g, r) => (40 :: g, r))
+  | d, 41 :: rest => if d ≤ 1 then some ([], rest) else (groupBody (d - 1) rest).map (fun (g, r) => (41 :: g, r))
+  | d, b :: rest => (groupBody d rest).map (fun (g, r) => (b :: g, r))
 
-def parseItems (input : Bytes) : Option Items := (parseSeq (input.length + 1) input false).map (·.1)
+theorem groupBody_length : ∀ (d : Nat) (s g r : Bytes), groupBody d s = some (g, r) → g.length + r.length < s.length
+  | _, [], _, _, h => by simp [groupBody] at h
+  | d, [b], g, r, h => by
+    by_cases h92 : b = 92
+    · subst h92; simp [groupBody] at h
+    · by_cases h40 : b = 40
+      · subst h40; simp [groupBody] at h
+      · by_cases h41 : b = 41
+        · subst h41
+          simp only [groupBody] at h
+          split at h
+          · injection h with h; injection h with h1 h2; subst h1 h2; simp
+          · simp [groupBody] at h
+        · rw [groupBody] at h
+          · simp [groupBody] at h
+          all_goals simp_all
+  | d, b :: c :: rest, g, r, h => by
+    by_cases h92 : b = 92
+    · subst h92
+      simp only [groupBody, Option.map_eq_some_iff] at h
+      obtain ⟨⟨g', r'⟩, hg, he⟩ := h
+      injection he with h1 h2; subst h1 h2
+      have := groupBody_length d rest g' r' hg
+      simp only [List.length_cons]; omega
+    · by_cases h40 : b = 40
+      · subst h40
+        simp only [groupBody, Option.map_eq_some_iff] at h
+        obtain ⟨⟨g', r'⟩, hg, he⟩ := h
+        injection he with h1 h2; subst h1 h2
+        have := groupBody_length (d + 1) (c :: rest) g' r' hg
+        simp only [List.length_cons] at this ⊢; omega
+      · by_cases h41 : b = 41
+        · subst h41
+          simp only [groupBody] at h
+          split at h
+          · injection h with h; injection h with h1 h2; subst h1 h2; simp
+          · simp only [Option.map_eq_some_iff] at h
+            obtain ⟨⟨g', r'⟩, hg, he⟩ := h
+            injection he with h1 h2; subst h1 h2
+            have := groupBody_length (d - 1) (c :: rest) g' r' hg
+            simp only [List.length_cons] at this ⊢; omega
+        · rw [groupBody] at h
+          · simp only [Option.map_eq_some_iff] at h
+            obtain ⟨⟨g', r'⟩, hg, he⟩ := h
+            injection he with h1 h2; subst h1 h2
+            have := groupBody_length d (c :: rest) g' r' hg
+            simp only [List.length_cons] at this ⊢; omega
+          all_goals simp_all
+
+/-- a template text as items: escapes, literal bytes and groups delimited by matching parentheses. `none` when a
+parenthesis has no partner or a group is empty. A backslash that is the last byte is a literal. -/
+def parseSeq : Nat → Bytes → Option Items
+  | 0, _ => none
+  | _ + 1, [] => some .nil
+  | fuel + 1, 92 :: b :: rest => (parseSeq fuel rest).map (.cons (.esc b))
+  | fuel + 1, 40 :: rest =>
+    match groupBody 1 rest with
+    | none => none
+    | some (g, rest') =>
+      if g.isEmpty then none else
+      match parseSeq fuel g, parseSeq fuel rest' with
+      | some inner, some tail => some (.cons (.grp inner) tail)
+      | _, _ => none
+  | _ + 1, 41 :: _ => none
+  | fuel + 1, b :: rest => (parseSeq fuel rest).map (.cons (.lit b))
+
+def parseItems (input : Bytes) : Option Items := parseSeq (input.length + 1) input
 
 mutual
 /-- the alternatives one item contributes -/
